@@ -84,7 +84,22 @@ def main():
       return getattr(self._inner, a)
 
   flaky = Flaky(fd)
+  # 'noise': another sampler object over the same dataset, with another cohort size and seed, samples the SAME round right
+  # before every sample of the sampler under observation (a training and an evaluation sampler living side by side)
+  other, cur_round = None, None
+  if job.get('noise') and job['kind'] == 'get':
+    oc = 1 if job['cohort'] > 1 else min(2, len(ids))
+    other = fedjax.client_samplers.UniformGetClientSampler(fd, oc, job['seed'] + 1, start_round_num=0)
   for op in job['ops']:
+    if op['op'] in ('new', 'set_round'):
+      cur_round = op['r']
+    if other is not None and op['op'] == 'sample' and cur_round is not None:
+      try:
+        other.set_round_num(cur_round)
+        list(other.sample())
+      except Exception:  # pylint: disable=broad-except
+        pass
+      cur_round += 1
     if op['op'] == 'new':
       if job['kind'] == 'get':
         sampler = fedjax.client_samplers.UniformGetClientSampler(flaky, job['cohort'], job['seed'], start_round_num=op['r'])
